@@ -133,7 +133,7 @@ static std::vector<std::string> hist_gen(const GenArgs &ga) {
   bool rawalloc = false;
   int nsubjects = 0;
   if (P == "C06") {
-    oracles = "res,fd,class,backup";
+    oracles = "res,fd,backup";
     static const char *codes[] = {"-", "-", "-", "emulate", "backup", "debug", "backup,emulate", "debug,backup"};
     orc_code = codes[sw.below(8)];
     // index 0 of every batch member mod 4 is the fault-free configuration (no relaxation)
